@@ -374,4 +374,13 @@ theorem outline_closed_form (t : Triangle) (c : Nat) (h : t.boundingBox.InRange)
   outlinePixels_eq t c h
 example : (⟨⟨0, 0⟩, ⟨5, 1⟩, ⟨4, 6⟩⟩ : Triangle).boundingBox.InRange := by decide
 
+/-- The pixel set of the one-pixel outline moves with the triangle (exported for C07). -/
+theorem outline_translate (t : Triangle) (c : Nat) (d p : Pt) (h1 : t.boundingBox.InRange)
+    (h2 : (t.translate d).boundingBox.InRange) :
+    p + d ∈ ((t.translate d).outlinePixels c).map (·.1) ↔ p ∈ (t.outlinePixels c).map (·.1) :=
+  mem_outline_translate t c d p h1 h2
+
+example : (⟨⟨0, 0⟩, ⟨5, 1⟩, ⟨4, 6⟩⟩ : Triangle).boundingBox.InRange ∧
+    ((⟨⟨0, 0⟩, ⟨5, 1⟩, ⟨4, 6⟩⟩ : Triangle).translate ⟨-7, 3⟩).boundingBox.InRange := by decide
+
 end EG.C19
